@@ -386,3 +386,13 @@ package clickhouse_planner
 //@   at sql_select.NewSimpleCol$ first-window-of-the-step-wins: arg1 == "value" ==> arg0 == "argMin(pre_step_fix.value, pre_step_fix.timestamp_ns)"
 //@   ensures fix-only-when-step-exceeds-range: result1 == nil && s.Duration.Nanoseconds() >= ctx.Step.Nanoseconds() ==> result0 == main
 //@   at sql_select.NewWith$ fix-only-when-step-exceeds-range: s.Duration.Nanoseconds() < ctx.Step.Nanoseconds()
+
+// The rendered matcher clauses - which contain the label values and regular
+// expressions of the request - reach fmt.Sprintf only as OPERANDS: the format strings
+// of the bit-set rendering are the two constants, so a % in a request string is never
+// read as a verb.
+//@ func (*SqlBitSetAnd).String [C10]
+//@   flag checks=-index,-assert
+//@   at fmt.Sprintf$ request-text-is-an-operand-never-the-format: arg0 == "bitShiftLeft(%s, %d)" || arg0 == "groupBitOr(%s)"
+//@   loop 1:
+//@     modifies everything
